@@ -62,7 +62,7 @@ var RespVariants = map[string][]string{
 	"accept":     {"canonical", "absent", "case-name", "blanks", "other-key", "len27", "len29", "empty", "dup-same", "dup-diff", "lowercased", "noncanonical-base64", "one-char-off", "urlsafe-alphabet", "sha1-of-key-only", "quoted", "trailing-cr"},
 	"protocol":   {"none", "first", "last", "unrequested", "valid-then-unrequested", "unrequested-then-valid", "two-valid", "empty-value", "list", "case-changed"},
 	"extensions": {"none", "first", "first-with-params", "all", "unoffered", "offered-then-unoffered", "malformed", "empty-value"},
-	"extra":      {"none", "some", "long-value", "no-colon-line"},
+	"extra":      {"none", "some", "long-value", "no-colon-line", "token-names", "blank-value"},
 	"eol":        {"crlf", "lf"},
 }
 
@@ -307,6 +307,15 @@ func BuildResp(rng *rand.Rand, choice map[string]string, in ReqInfo) *Resp {
 		add("X-Thing", " "+strings.Repeat("y", rng.Intn(40)))
 	case "long-value":
 		add("Set-Cookie", " "+strings.Repeat("0123456789", 20+rng.Intn(600)))
+	case "token-names":
+		for i := 0; i < 1+rng.Intn(3); i++ {
+			add(TokenNames[rng.Intn(len(TokenNames))], " v"+fmt.Sprint(rng.Intn(1000)))
+		}
+	case "blank-value":
+		add([]string{"Server", "X-Thing", "Set-Cookie"}[rng.Intn(3)], []string{"", " ", "  ", "\t", " \t "}[rng.Intn(5)])
+		if rng.Intn(2) == 0 {
+			add("X-Other", " v")
+		}
 	case "no-colon-line":
 		r.Headers = append(r.Headers, Hdr{Raw: "line without colon"})
 		v.Reject("header line without colon")
